@@ -418,6 +418,123 @@ func c03Grammar(full bool) []*c03Expected {
 	return out
 }
 
+// --- sized family -------------------------------------------------------------
+//
+// Threshold probes: the byte-carrying fields of an expected result (payload
+// data, error message, error detail value, echoed request value) at sizes
+// around powers of two. The ordinary deviations (first / middle / last byte,
+// one byte dropped or appended at the end) are then applied by c03Mutations,
+// so a comparison that stops looking after some prefix, at a buffer boundary or
+// beyond some length shows up as an accepted deviation.
+
+var c03Sizes = []int{255, 256, 257, 1023, 1024, 1025, 4095, 4096, 4097, 65535, 65536, 65537}
+
+func c03SizedBytes(n, seed int) []byte {
+	b := make([]byte, n)
+	for i := range b {
+		b[i] = byte((i*131 + seed*29 + 7) % 251)
+	}
+	return b
+}
+
+func c03SizedText(n, seed int) string {
+	b := make([]byte, n)
+	for i := range b {
+		b[i] = 'a' + byte((i*7+seed)%26)
+		if i%11 == 10 {
+			b[i] = ' '
+		}
+	}
+	return string(b)
+}
+
+// c03SizedMsg: the encoding of a message whose field 1 is a string, `total`
+// bytes long altogether (google.protobuf.StringValue, conformance Header with
+// a long name).
+func c03SizedMsg(total, seed int) []byte {
+	for hdr := 2; hdr <= 4; hdr++ {
+		n := total - hdr
+		if n < 0 {
+			break
+		}
+		var lenBytes []byte
+		for v := uint64(n); ; {
+			if v < 0x80 {
+				lenBytes = append(lenBytes, byte(v))
+				break
+			}
+			lenBytes = append(lenBytes, byte(v)|0x80)
+			v >>= 7
+		}
+		if 1+len(lenBytes) != hdr {
+			continue
+		}
+		b := append([]byte{0x0a}, lenBytes...)
+		return append(b, c03SizedText(n, seed)...)
+	}
+	panic(fmt.Sprintf("no field-1 string message is %d bytes long", total))
+}
+
+var c03SizedFamilies = []string{"payload-unary", "payload-x3", "error-message", "error-details", "echoed-request"}
+
+func c03SizedBuild(fam string, size int) *conformancev1.TestCase {
+	st := conformancev1.StreamType_STREAM_TYPE_UNARY
+	exp := &conformancev1.ClientResponseResult{}
+	switch fam {
+	case "payload-unary":
+		exp.Payloads = []*conformancev1.ConformancePayload{{Data: c03SizedBytes(size, 0)}}
+	case "payload-x3":
+		st = conformancev1.StreamType_STREAM_TYPE_FULL_DUPLEX_BIDI_STREAM
+		for i := 0; i < 3; i++ {
+			exp.Payloads = append(exp.Payloads, &conformancev1.ConformancePayload{Data: c03SizedBytes(size, i+1)})
+		}
+	case "error-message":
+		exp.Error = &conformancev1.Error{Code: conformancev1.Code_CODE_FAILED_PRECONDITION, Message: proto.String(c03SizedText(size, 3))}
+	case "error-details":
+		exp.Error = &conformancev1.Error{Code: conformancev1.Code_CODE_OUT_OF_RANGE, Message: proto.String("sized details"), Details: []*anypb.Any{
+			c03Any("google.protobuf.StringValue", c03SizedMsg(size, 1)),
+			c03Any("verif.NotLinkedIn", c03SizedBytes(size, 5)),
+		}}
+	case "echoed-request":
+		exp.Payloads = []*conformancev1.ConformancePayload{{
+			Data: []byte("data-0"),
+			RequestInfo: &conformancev1.ConformancePayload_RequestInfo{
+				Requests: []*anypb.Any{c03Any("connectrpc.conformance.v1.Header", c03SizedMsg(size, 2))},
+			},
+		}}
+	default:
+		panic(fam)
+	}
+	return &conformancev1.TestCase{Request: &conformancev1.ClientCompatRequest{StreamType: st}, ExpectedResponse: exp}
+}
+
+// c03Sized: sizes ascending, families in the order above.
+func c03Sized() []*c03Expected {
+	var out []*c03Expected
+	for _, size := range c03Sizes {
+		for _, fam := range c03SizedFamilies {
+			out = append(out, &c03Expected{ID: fmt.Sprintf("sized:fam=%s,size=%d", fam, size), Source: "sized", Def: c03SizedBuild(fam, size)})
+		}
+	}
+	return out
+}
+
+// c03ByteEdits: the single-byte deviations of a non-empty byte string: first,
+// middle and last byte altered, one byte dropped at the end.
+func c03ByteEdits(n int, add func(variant string, f func(d []byte) []byte)) {
+	if n == 0 {
+		return
+	}
+	add("first-byte", func(d []byte) []byte { d[0] ^= 1; return d })
+	if n > 1 {
+		add("last-byte", func(d []byte) []byte { d[len(d)-1] ^= 0x80; return d })
+	}
+	if n > 2 {
+		add("middle-byte", func(d []byte) []byte { d[len(d)/2] ^= 0x10; return d })
+	}
+	add("truncated", func(d []byte) []byte { return d[:len(d)-1] })
+}
+
 // ---------------------------------------------------------------------------
 // rewrites and deviations (knows the message schema, the property text, the
 // proto comments and docs/ only)
@@ -798,6 +915,9 @@ func c03InfoMutations(add c03Adder, acc c03InfoAcc) {
 		if len(q.Value) > 0 {
 			alter("empty", func(q *anypb.Any) { q.Value = nil })
 		}
+		c03ByteEdits(len(q.Value), func(variant string, f func(d []byte) []byte) {
+			alter(variant, func(q *anypb.Any) { q.Value = f(append([]byte{}, q.Value...)) })
+		})
 		for m := k + 1; m < nReq; m++ {
 			m := m
 			if proto.Equal(q, info.Requests[m]) {
@@ -998,6 +1118,28 @@ func c03Mutations(def *conformancev1.TestCase) []c03Mut {
 				add("deviation", "error-message", "error.message", "truncate", msgTok, func(a *c03Result) {
 					a.Error.Message = proto.String(m[:len(m)-1])
 				})
+				// one character altered at the beginning, in the middle, at the end
+				runes := []rune(m)
+				seenAt := map[int]bool{}
+				for _, v := range []struct {
+					how string
+					at  int
+				}{{"first-char", 0}, {"last-char", len(runes) - 1}, {"middle-char", len(runes) / 2}} {
+					if seenAt[v.at] {
+						continue // short message: positions coincide
+					}
+					seenAt[v.at] = true
+					at := v.at
+					add("deviation", "error-message", "error.message", v.how, msgTok, func(a *c03Result) {
+						rs := []rune(a.Error.GetMessage())
+						if rs[at] == 'Q' {
+							rs[at] = 'R'
+						} else {
+							rs[at] = 'Q'
+						}
+						a.Error.Message = proto.String(string(rs))
+					})
+				}
 				add("deviation", "error-message", "error.message", "empty", msgTok, func(a *c03Result) { a.Error.Message = proto.String("") })
 				add("deviation", "error-message", "error.message", "unset", msgTok, func(a *c03Result) { a.Error.Message = nil })
 			}
@@ -1058,6 +1200,11 @@ func c03Mutations(def *conformancev1.TestCase) []c03Mut {
 			if len(d.Value) > 0 {
 				add("deviation", "detail-bytes", dpos, "empty", detTok(n), func(a *c03Result) { a.Error.Details[n].Value = nil })
 			}
+			c03ByteEdits(len(d.Value), func(variant string, f func(d []byte) []byte) {
+				add("deviation", "detail-bytes", dpos, variant, detTok(n), func(a *c03Result) {
+					a.Error.Details[n].Value = f(append([]byte{}, a.Error.Details[n].Value...))
+				})
+			})
 		}
 	}
 
@@ -1087,14 +1234,7 @@ func c03Mutations(def *conformancev1.TestCase) []c03Mut {
 		if len(p.Data) == 0 {
 			data("non-empty", func(d []byte) []byte { return []byte("x") })
 		} else {
-			data("first-byte", func(d []byte) []byte { d[0] ^= 1; return d })
-			if len(p.Data) > 1 {
-				data("last-byte", func(d []byte) []byte { d[len(d)-1] ^= 0x80; return d })
-			}
-			if len(p.Data) > 2 {
-				data("middle-byte", func(d []byte) []byte { d[len(d)/2] ^= 0x10; return d })
-			}
-			data("truncated", func(d []byte) []byte { return d[:len(d)-1] })
+			c03ByteEdits(len(p.Data), data)
 		}
 		data("extended", func(d []byte) []byte { return append(d, 0) })
 		for m := n + 1; m < nExp; m++ {
@@ -1233,6 +1373,8 @@ func TestVerifC03(t *testing.T) {
 	r.Rule = "enumeration: (expected result E) x (identity | leniency rewrite | single deviation) x (position, variant); " +
 		"E = distinct (stream type, other allowed codes, expected response) of the expanded embedded corpus (size-limit payloads once per shape) " +
 		"followed by the grammar product (quick: at most two non-base coordinates besides the stream type; thorough: full product), simplest first; " +
+		"then the sized family (payload data of a unary and of three full-duplex responses, error message, two error details, echoed request, each " +
+		"255/256/257, 1023/1024/1025, 4095/4096/4097, 65535/65536/65537 bytes long; deviations at the first, middle and last byte and one byte dropped / appended at the end); " +
 		"the size-limit expectations come last and, in the quick tier, get only the identity and (unary, full-duplex) the payload / echoed-request deviations. " +
 		"distinct_nontrivial counts (E, kind, position, variant) tuples whose rewritten actual result differs (proto.Equal) from E; identity pairs are evaluated but not counted."
 
@@ -1269,9 +1411,11 @@ func TestVerifC03(t *testing.T) {
 			all = append(all, e)
 		}
 	}
-	all = append(append(all, grammar...), big...)
+	sized := c03Sized()
+	all = append(append(append(all, grammar...), sized...), big...)
 	if r.Shard == 0 {
 		r.Count("corpus_size_limit_expected", int64(len(big)))
+		r.Count("sized_expected", int64(len(sized)))
 	}
 
 	deadline := rep.Deadline()
@@ -1357,7 +1501,7 @@ outer:
 			continue
 		}
 		muts := c03Mutations(e.Def)
-		if c03IsBig(e.Def) && !rep.Thorough() && replay == nil {
+		if c03IsBig(e.Def) && e.Source != "sized" && !rep.Thorough() && replay == nil {
 			// quick tier: one assert on a 200 KB expectation costs about a second of CPU, so only the
 			// rewrites that touch the padded messages are run there, on the unary and the full-duplex
 			// expectation; the identity is run on all five
